@@ -1,4 +1,5 @@
 import EgglogVerif.Model.UF
+import EgglogVerif.Model.CUF
 namespace Driver
 open EgglogVerif.UF
 
@@ -25,6 +26,19 @@ def ufStep (p : Parents) (toks : List String) : Parents × String :=
     | some a => (reserve p a, "ok")
     | none => (p, "bad-op")
   | ["reset"] => (reset p, "ok")
+  -- the concurrent structure driven from one thread (Model/CUF.lean, theorem C17c_seq_find)
+  | ["cmerge", a, b] =>
+    match a.toNat?, b.toNat? with
+    | some a, some b => let (p', (pa, ch)) := cMerge p a b; (p', s!"{pa} {ch}")
+    | _, _ => (p, "bad-op")
+  | ["cfind", a] =>
+    match a.toNat? with
+    | some a => let (p', r) := cFind p a; (p', s!"{r}")
+    | none => (p, "bad-op")
+  | ["csame", a, b] =>
+    match a.toNat?, b.toNat? with
+    | some a, some b => let (p', r) := cSameSet p a b; (p', if r then "true" else "false")
+    | _, _ => (p, "bad-op")
   | ["dump", n] =>
     match n.toNat? with
     | some n => (p, " ".intercalate ((List.range n).map fun i => toString (findNaive p i)))
